@@ -207,6 +207,26 @@ func runC14(ctx *core.Ctx, pool *par.Pool) {
 		xstate.RunProbes(ctx, pool, cfg, resized, "sweep", nil, flags, func(n *xstate.Node, r *xstate.ProbeResult) { sweeps++ })
 	}
 	ctx.Unshare()
+	// every size change (thorough: followed by every operation) from each harvested seed state, with an allocation
+	// sweep in every state reached through a size change
+	hd := 1
+	if !quick {
+		hd = 2
+	}
+	hflags := []string{"c14", "memdisk", "diskfmt"}
+	hst, hprobes, hseeds := harvestPass(ctx, pool, []string{"A", "B", "D", "C"}, overflowResizeAlphabet, hflags, hd, "sweep",
+		func(cfg pagedrv.Cfg) func(from *xstate.Node, s *xstate.Succ, isNew bool, to *xstate.Node) {
+			return func(from *xstate.Node, s *xstate.Succ, isNew bool, to *xstate.Node) {
+				if s.Op.K == pagedrv.OReopenWith && !s.Dead {
+					resizes++
+					kinds[fmt.Sprintf("%s->%d", cfg.Name, s.Op.A)]++
+				}
+			}
+		})
+	total.States += hst.States
+	total.Transitions += hst.Transitions
+	sweeps += hprobes
+	ctx.Set("harvested_seed_states", hseeds)
 	ctx.Set("resize_transitions", resizes)
 	ctx.Set("resize_kinds", kinds)
 	ctx.Set("capacity_probes_after_grow", probes)
